@@ -28,7 +28,7 @@ META["C10"] = dict(
 META["C13"] = dict(
     design_ref="DESIGN.md section 5, C13",
     technique="Coq proof on the exact layer (telescoping sum and a contraction bound on the carried balance, by induction over ticks, nia) for every admissible run, i.e. every random outcome; bit-exact differential correspondence of api.WithJitter against the extracted binary64 model with the math/rand source mirrored; proof that the binary64 step is an admissible step with exactly carried integer balance (four correctly rounded operations, round-half-away, clamp, truncation); admissibility predicate also evaluated on every run of the implementation",
-    text="C13_composed_bound, C13_step_upper: for the trigger as the CLI builds it (jitter under a distribution) the running totals of the jittered and the un-jittered trigger differ at every sub-tick by at most R(1+j) + B(2+j) + 1 with B the bound of C13_bounded, derived from C13_bounded at period ends and the admissible step. Theorems C13_identity, C13_telescope, C13_bounded, C13_nonneg, C13_checker_sound (exact layer), C13_f64_admissible, C13_f64_total (binary64 code): for jitter below 100% and rates in [0,R], in every admissible run the difference between requested and emitted totals is the carried balance and stays within (jn*R+jd)/(jd-jn) at every prefix, outputs are non-negative, zero jitter is the identity. Admissibility (each value within jitter% + 1 of rate+balance; exact carry) of what the binary64 code emits is proved from Flocq's correct-rounding theorems (C13_f64_admissible: every finite cosine value in [-1,1], jitter a positive normal float below 100, magnitudes below 2^49) and additionally checked per run by jit_ok.",
+    text="C13_composed_history (with C13_composed_bound, C13_step_upper): for every run of the jitter and whatever non-negative parts each period's value is spread into, i.e. for the trigger as the CLI builds it (jitter under a distribution) the running totals of the jittered and the un-jittered trigger differ at every sub-tick by at most R(1+j) + B(2+j) + 1 with B the bound of C13_bounded, derived from C13_bounded at period ends and the admissible step. Theorems C13_identity, C13_telescope, C13_bounded, C13_nonneg, C13_checker_sound (exact layer), C13_f64_admissible, C13_f64_total (binary64 code): for jitter below 100% and rates in [0,R], in every admissible run the difference between requested and emitted totals is the carried balance and stays within (jn*R+jd)/(jd-jn) at every prefix, outputs are non-negative, zero jitter is the identity. Admissibility (each value within jitter% + 1 of rate+balance; exact carry) of what the binary64 code emits is proved from Flocq's correct-rounding theorems (C13_f64_admissible: every finite cosine value in [-1,1], jitter a positive normal float below 100, magnitudes below 2^49) and additionally checked per run by jit_ok.",
     note="Trusted: Coq kernel (+ axioms carried by Flocq definitions for theorems mentioning the float model); math.Cos and math/rand are oracles taken from the run; extraction + driver; harness. Outside the theorems: jitter >= 100 %, subnormal jitter percentages, magnitudes of 2^49 and more.",
 )
 
